@@ -112,8 +112,9 @@ def run(rd, emit, log, enum_values, ti_default):
     dob = _fn_body(co, r'void\s+ConfigObject::DumpObjects\s*\(')
     dmax = 'None'
     if dob is not None:
-        if re.search(r'String\s+json\s*=\s*JsonEncode\s*\(\s*persistentObject\s*\)\s*;\s*NetString::WriteStringToStream\s*\(\s*sfp\s*,\s*json\s*\)\s*;', dob) \
-                and not re.search(r'GetLength\s*\(|\.size\s*\(|length\s*\(', dob):
+        # every object's JSON goes to NetString::WriteStringToStream and nothing in the function compares a length
+        if re.search(r'JsonEncode\s*\(\s*persistentObject\s*\)', dob) and re.search(r'NetString::WriteStringToStream\s*\(', dob) \
+                and not re.search(r'(GetLength|size|length)\s*\(\s*\)\s*(<|>|==|!=)|(<|>|==|!=)\s*[\w.>-]*(GetLength|size|length)\s*\(', dob):
             dmax = 'Some None'
     if dmax == 'None': log.append('C14: DumpObjects record emission not recognised')
     body += '(* largest record ConfigObject::DumpObjects writes: Some None = no limit *)\n'
